@@ -205,8 +205,8 @@ P("C11", module="AJ.Props.C11All", extra=[("AJ.Props.C11", ["C11"]), ("AJ.Props.
                        S.MpDocFSuite(cfg=G["len1"], n=400 if tier == "quick" else 40000), S.MpDocFSuite(cfg=G["tiny2"], n=400 if tier == "quick" else 40000)],
   partial=["memory clause: proved for the memory HELD at the end of the two runs (strings, nodes, slots); as a statement about the total of the allocator requests it is false on the code (two known findings), and the peak during the run is compared on the implementation only"])
 
-P("C12", module="AJ.Props.C12All", extra=[("AJ.Props.SlotCor", ["C12"]), ("AJ.Props.C12", ["C12"]), ("AJ.Props.C12Print", ["C12"])],
-  level_text="Theorems: every integer literal in [-2^63, 2^64) with any number of leading zeros parses to exactly that integer and nothing else does; integers print digit-exact; "
+P("C12", module="AJ.Props.C12All", extra=[("AJ.Props.C12Gen", ["C12"]), ("AJ.Props.SlotCor", ["C12"]), ("AJ.Props.C12", ["C12"]), ("AJ.Props.C12Print", ["C12"])],
+  level_text="C12.printed_numbers_are_source / parsed_literals_are_source: on 63 stored numbers and 56 number-like literals (range boundaries, long digit strings, lenient and malformed spellings) the printing model writes byte for byte what serializeJson writes, and the deserializer + conversion models give the code, the kind of number and the four readings that the compiled library gives on every run (translator tie, kernel evaluation). Theorems: every integer literal in [-2^63, 2^64) with any number of leading zeros parses to exactly that integer and nothing else does; integers print digit-exact; "
   "print/parse round trip over the whole 64-bit range; no literal of any length reaches an out-of-range table index. Floating point, over exact rationals - PARSE (C12.float_clauses, "
   "parse_double_error, parse_float_error, huge_value_is_inf, tiny_value_is_zero, many_digits_double, saturated_exponent, parse_subnormal_band): for every RFC number literal of at most 99000 "
   "digits, a double result is within 1e-13 relative (or the correctly signed infinity above 1e300), a float result is within 1e-6 and never infinite, |v| >= 1e309 gives infinity, |v| < 1e-325 "
